@@ -167,7 +167,7 @@ def _run_case(case):
         stem = (b'correct horse battery staple ' * 4)[:70] if case.get('long_passwords') else b''
         cache = str(W.dir / 'cache') if case.get('foreign_cache') else None
         h = settings.get('hashing') if isinstance(settings.get('hashing'), dict) else {}
-        if isinstance(h.get('length'), int) and not isinstance(h.get('length'), bool) and h['length'] < 8:
+        if isinstance(h.get('length'), int) and h['length'] < 8:      # (True counts: it is accepted as a length of 1)
             # digests of a few bytes collide for real (1 in 256 for length 1); the cache verifies entries by digest,
             # and "hash collisions do not occur" is an assumption of every check
             cache = None
